@@ -173,10 +173,18 @@ class SegwitChecker(SolutionChecker):
                 raise ScriptError("witness unexpected", errno.WITNESS_UNEXPECTED)
         else:
             witness_program = puzzle_script[2:]
-            if len(solution_stack) > 0:
-                err = (
-                    errno.WITNESS_MALLEATED_P2SH if is_p2sh else errno.WITNESS_MALLEATED
+            # the scriptSig must be exactly empty (native) or exactly the canonical push of the
+            # witness program (P2SH-wrapped); looking at the resulting stack would let other
+            # encodings of the same stack through
+            if is_p2sh:
+                expected_solution_script = self.ScriptTools.compile_push_data_list(  # type: ignore[attr-defined]
+                    [puzzle_script]
                 )
+                err = errno.WITNESS_MALLEATED_P2SH
+            else:
+                expected_solution_script = b""
+                err = errno.WITNESS_MALLEATED
+            if tx_context.solution_script != expected_solution_script:
                 raise ScriptError("script sig is not blank on segwit input", err)
 
             if witness_version == 0:
